@@ -175,7 +175,7 @@ def atom_show(a, names):
         return 'ror(%s, %d)' % (term_show(Lin(a[1][0], dict(a[1][1])), names), a[2])
     if a[0] == 'extr':
         return 'extr(%s : %s, %d)' % (term_show(Lin(a[1][0], dict(a[1][1])), names), term_show(Lin(a[2][0], dict(a[2][1])), names), a[3])
-    return '%s(%s)' % (a[0], ', '.join(term_show(Lin(z[0], dict(z[1])), names) for z in a[1:]))
+    return '%s(%s)' % (a[0], ', '.join(term_show(Lin(z[0], dict(z[1])), names) if isinstance(z, tuple) and len(z) == 2 and isinstance(z[1], tuple) else str(z) for z in a[1:]))
 
 
 # ------------------------------------------------------------------------------------------------------------------ machine
@@ -454,3 +454,138 @@ def rule_ss_hsem(ctx, R):
             R.ok(inst, where)
     if n < 500:
         raise AnalysisBroken('A64-SS-HSEM: only %d cases evaluated' % n)
+
+
+# ---------------------------------------------------------------------------------------------------------------------------
+# memory-form integer instructions and ISTORE
+
+def decode_bitmask(n, imms, immr, size=64):
+    """DecodeBitMasks of the A64 logical-immediate encoding (ARM ARM, shared pseudocode); returns the immediate or None for a reserved encoding"""
+    combined = (n << 6) | ((~imms) & 0x3f)
+    if combined == 0:
+        return None
+    length = combined.bit_length() - 1
+    if length < 1:
+        return None
+    levels = (1 << length) - 1
+    s_ = imms & levels
+    r_ = immr & levels
+    if s_ == levels:
+        return None
+    esize = 1 << length
+    welem = (1 << (s_ + 1)) - 1
+    welem = ((welem >> r_) | (welem << (esize - r_))) & ((1 << esize) - 1)
+    out = 0
+    for i in range(0, size, esize):
+        out |= welem << i
+    return out & ((1 << size) - 1)
+
+
+class MemMachine(Machine):
+    def __init__(self, regmap):
+        Machine.__init__(self, regmap)
+        self.x[2] = atom(('spad',))
+        self.stores = []
+
+    def step(self, w, where):
+        from rules import x86hsem as X
+        f = lambda lo, n: (w >> lo) & ((1 << n) - 1)
+        rd, rn, rm = f(0, 5), f(5, 5), f(16, 5)
+        if (w & 0xFF800000) == 0x92000000:                      # AND (immediate), 64-bit
+            m_ = decode_bitmask(f(22, 1), f(10, 6), f(16, 6))
+            if m_ is None:
+                raise AnalysisBroken('A64-MEM-HSEM: reserved logical immediate in %#010x at %s' % (w, where))
+            self.put(rd, X.and_(self.get(rn), const(m_)))
+            return 'and#%#x' % m_
+        if (w & 0xFFE0EC00) in (0xF8606800, 0xF8206800) and f(13, 3) == 3:      # LDR / STR (register), 64-bit, LSL
+            a = add(self.get(rn), scale(self.get(rm), 8 if f(12, 1) else 1))
+            if (w & 0xFFE0EC00) == 0xF8606800:
+                self.put(rd, X.ld64(a))
+                return 'ldr'
+            self.stores.append((a, self.get(rd)))
+            return 'str'
+        return Machine.step(self, w, where)
+
+
+MEM_HANDLERS = ('IADD_M', 'ISUB_M', 'IMUL_M', 'IMULH_M', 'ISMULH_M', 'IXOR_M', 'ISTORE')
+
+
+def rule_mem_hsem(ctx, R):
+    from rules import x86hsem as X
+    F, hs = jit.handlers(ctx, 'a64')
+    cls = 'randomx::JitCompilerA64'
+    R.rule('A64-MEM-HSEM', 'for the six memory-form integer instructions and ISTORE the words the A64 handler emits, given their architectural meaning on terms with x2 as the scratchpad base, read (write) the 8 bytes at '
+           'scratchpad + ((src + sext(imm32)) & mask) with the L1 / L2 mask chosen by mod.mem (ISTORE: L3 when mod.cond >= StoreL3Condition; src == dst: the constant address imm32 & L3 mask) and combine them with dst as specification 5.2 prescribes; '
+           'the and-immediates are decoded by the logical-immediate rules; every dst x src, mod.mem in {0, 1, 3}, boundary immediates, literal table free and exhausted', min_instances=2500)
+    R.saw(config='K2', unit='src/jit_compiler_a64.cpp')
+    FI = astq.Facts(ctx, 'K0')
+    K = {'L1': FI.const('randomx::ScratchpadL1Mask'), 'L2': FI.const('randomx::ScratchpadL2Mask'), 'L3': FI.const('randomx::ScratchpadL3Mask'), 'StoreL3Condition': FI.const('randomx::StoreL3Condition')}
+    if None in K.values():
+        raise AnalysisBroken('A64-MEM-HSEM: scratchpad mask constants not found')
+    g = F.glob('randomx::IntRegMap')
+    regmap = [val(e) for e in g['init']['e']]
+    n = 0
+    for name in MEM_HANDLERS:
+        if name not in hs:
+            raise AnalysisBroken('A64-MEM-HSEM: handler of %s not found' % name)
+        h = hs[name].f
+        where = '%s:%d' % (h['file'], h['line'])
+        R.saw(fn=h['q'])
+        ip = h['params'][0]
+        for d in range(8):
+            for s in range(8):
+                for modmem in (0, 1, 3):
+                    for modcond in ((0, 13, 14, 15) if name == 'ISTORE' else (0,)):
+                        imms = X.MEM_IMMS if s == d or (d + s + modmem) % (3 if getattr(ctx, 'tier', 'quick') == 'thorough' else 7) == 0 else X.MEM_IMMS[5:7]
+                        for imm in imms:
+                            for nlit in ((0, 64) if (d + s) % 4 == 0 else (64,)):
+                                n += 1
+                                mod = modmem | (modcond << 4)
+                                m = MemMachine(regmap)
+                                ex = Exec(F, cls, None, {}, nlit)
+                                pname = ip['name']
+                                env0 = {'%s.dst' % pname: KB.const(8, d), '%s.src' % pname: KB.const(8, s), '%s.mod' % pname: KB.const(8, mod)}
+                                ov = {'randomx::Instruction::getImm32': KB.const(32, imm), 'randomx::Instruction::getModShift': KB.const(32, (mod >> 2) & 3),
+                                      'randomx::Instruction::getModMem': KB.const(32, modmem), 'randomx::Instruction::getModCond': KB.const(32, modcond)}
+                                ex.run_with(h, [None, KB.const(32, 0x1000)], env0, ov)
+                                tr = []
+                                for w, wh in ex.words:
+                                    v = w.value()
+                                    if v is None:
+                                        raise AnalysisBroken('A64-MEM-HSEM: a word emitted at %s is not constant (%s)' % (wh, w.hexpat()))
+                                    m.literals = {k_: (x_.value() if x_.value() is not None else 0) for k_, x_ in ex.literals.items()}
+                                    tr.append(m.step(v, wh))
+                                exp, exp_st = X.mem_expected(name, d, s, imm, modmem, modcond, K)
+                                got = [m.get(regmap[i]) for i in range(8)]
+                                pairs = [('r%d' % i, got[i], exp[i]) for i in range(8)]
+                                bad = None
+                                if len(m.stores) != len(exp_st):
+                                    bad = '%d store(s) after `%s`, the specification has %d' % (len(m.stores), ' ; '.join(tr), len(exp_st))
+                                else:
+                                    for (ga, gv), (ea, ev_) in zip(m.stores, exp_st):
+                                        pairs.append(('store address', ga, ea))
+                                        pairs.append(('stored value', gv, ev_))
+                                for what, g_, e_ in (pairs if bad is None else ()):
+                                    if g_ != e_:
+                                        differs = None
+                                        for vals in VALUATIONS:
+                                            a_, b_ = T_eval(g_, vals), T_eval(e_, vals)
+                                            if a_ != b_:
+                                                differs = (vals, a_, b_)
+                                                break
+                                        if differs is None:
+                                            raise AnalysisBroken('A64-MEM-HSEM: %s dst=r%d src=r%d: %s is %s, the specification says %s; equivalence undecided' % (name, d, s, what, term_show(g_, None), term_show(e_, None)))
+                                        bad = '%s = %s after `%s` (specification: %s); e.g. the code gives %#x, the specification %#x' % (what, term_show(g_, None), ' ; '.join(tr), term_show(e_, None), differs[1], differs[2])
+                                        break
+                                inst = '%s dst=r%d src=r%d mod.mem=%d%s imm32=%#x literals=%d' % (name, d, s, modmem, ' mod.cond=%d' % modcond if name == 'ISTORE' else '', imm, nlit)
+                                if bad:
+                                    R.violation(inst, where, expected='as in specification 5.2 (address = (src + sext(imm32)) & mask)', found=bad)
+                                else:
+                                    R.ok(inst, where)
+    if n < 2500:
+        raise AnalysisBroken('A64-MEM-HSEM: only %d cases evaluated' % n)
+
+
+def T_eval(x, vals):
+    import rules.a64hsem as me
+    return me.term_eval(x.canon(), vals)
